@@ -72,12 +72,15 @@ def h_restore(a_int: bool, a_float: bool, a_len: bool, b_int: bool, b_float: boo
     return _snap(ga) == sa and _snap(gb) == sb and all(seen)
 
 
-def h_same_dict_two_functions(a_int: bool, a_float: bool, a_len: bool, raise_inner: bool, raise_outer: bool) -> bool:
+def h_same_dict_two_functions(a_int: int, a_float: int, a_len: int, raise_inner: bool, raise_outer: bool) -> bool:
     """
+    pre: 0 <= a_int < 3 and 0 <= a_float < 3 and 0 <= a_len < 3
     post: _
     """
-    # two comptime functions of the *same* module calling each other (they share __globals__)
-    f1, g = mk((a_int, a_float, a_len), SENT_A)
+    # two comptime functions of the *same* module calling each other (they share __globals__); each name is unbound,
+    # bound to a user object, or bound to the builtin itself
+    g = mk2((a_int, a_float, a_len), SENT_A)
+    f1 = eval("lambda: (int, float, len)", g)
     f2 = eval("lambda: (len, int)", g)
     s = _snap(g)
     ok = True
@@ -96,3 +99,95 @@ def h_same_dict_two_functions(a_int: bool, a_float: bool, a_len: bool, raise_inn
     except Boom:
         pass
     return ok and _snap(g) == s
+
+
+# ------------------------------------------------------------------------------------------------------------------
+# Through the real caller: tracing/function.py:trace_function (it decides *which* functions' globals get mocked).
+import functools
+import ast as _ast
+from guppylang_internals.tracing import function as TF
+from guppylang_internals.tys.ty import FunctionType, NoneType
+from guppylang_internals.ast_util import annotate_location
+
+lib.repo_env.assert_repo(TF)
+_NODE = _ast.parse("f()").body[0].value
+annotate_location(_NODE, "f()", "<c23>", 1)
+import builtins as _bi
+BUILTINS = [_bi.int, _bi.float, _bi.len]
+
+
+class _Builder:
+    """stand-in for the HUGR dataflow builder of a function without inputs; whatever trace_function does with the
+    traced result afterwards may fail - the subject is the state of the user's globals when trace_function is left"""
+
+    def inputs(self):
+        return []
+
+    def set_outputs(self, *a):
+        pass
+
+    def __getattr__(self, name):
+        raise AttributeError(name)
+
+
+def mk2(kinds, sent):
+    """User module namespace: per name 0 = not bound, 1 = bound to a user object, 2 = bound to the builtin itself
+    (`from builtins import len`, `int = int`)."""
+    g = {"__builtins__": __builtins__, "other": 42, "functools": functools, "Boom": Boom}
+    for n, k, s, b in zip(NAMES, kinds, sent, BUILTINS):
+        if k == 1:
+            g[n] = s
+        elif k == 2:
+            g[n] = b
+    g["tail"] = 7
+    return g
+
+
+SRC_PLAIN = "def body(seen, boom):\n    seen.append((int, float, len))\n    if boom:\n        raise Boom()\n"
+SRC_DECO = ("def deco(f):\n    @functools.wraps(f)\n    def wrapper(*a):\n        return f(*a)\n    return wrapper\n")
+
+
+def h_trace_function(k_int: int, k_float: int, k_len: int, shape: int, boom: bool) -> bool:
+    """
+    pre: 0 <= k_int < 3 and 0 <= k_float < 3 and 0 <= k_len < 3 and 0 <= shape < 4
+    post: _
+    """
+    # shape 0: plain function; 1: behind a functools.wraps decorator defined in the same module; 2: behind a decorator
+    # from another module; 3: behind two decorators (same module, then other module)
+    g = mk2((k_int, k_float, k_len), SENT_A)
+    other = mk2((0, 1, 0), SENT_B)
+    exec(SRC_PLAIN, g)
+    exec(SRC_DECO, g)
+    exec(SRC_DECO, other)
+    f = g["body"]
+    if shape == 1:
+        f = g["deco"](f)
+    elif shape == 2:
+        f = other["deco"](f)
+    elif shape == 3:
+        f = other["deco"](g["deco"](f))
+    seen: list = []
+    sg, so = _snap(g), _snap(other)
+    ty = FunctionType([], NoneType())
+    try:
+        TF.trace_function(_Bound(f, seen, boom), ty, _Builder(), None, _NODE)
+    except Exception:  # noqa: BLE001
+        pass
+    # the body ran once; when the traced callable lives in the body's own module it saw the mocks (guards against a vacuous
+    # harness; which modules get mocks behind foreign decorators is not the subject here)
+    ok_seen = len(seen) == 1 and (shape >= 2 or seen[0] == (BM.int, BM.float, BM.len))
+    return ok_seen and _snap(g) == sg and _snap(other) == so
+
+
+class _Bound:
+    """callable that forwards to f(seen, boom) and exposes f's attributes the way a decorated function does"""
+
+    def __init__(self, f, seen, boom):
+        self._f, self._seen, self._boom = f, seen, boom
+        self.__globals__ = f.__globals__
+        if hasattr(f, "__wrapped__"):
+            self.__wrapped__ = f.__wrapped__
+        self.__name__ = getattr(f, "__name__", "f")
+
+    def __call__(self):
+        return self._f(self._seen, self._boom)
